@@ -19,7 +19,7 @@ CHECKS = {
  "C07": ("Lean theorems about the round-engine model for every table: fixpoint after each update, local confluence, idempotent duplicates, schedule independence up to permutation and duplication, pre-Start = post-Start delivery, ends exactly once, and no_deadlock for the closed n-party system (all-to-all, disciplined tables; hypotheses decided for the four library tables); tie = the behaviour of every party after each event of whole runs under 9 delivery strategies, one slow packet per message type and exhaustive interleavings (EdDSA n=2) equals the model's trace; resharing runs with one slow packet per message type against Engine2",
          "the resharing theorems are C04's (Props/C04b); payload validity is abstracted at this level"),
  "C08": ("Lean theorems: emissions are exactly the canonical per-round prefix once each in order, a round advances only when every requirement is stored with the right flag, wrong-channel copies never advance a round, WaitingFor = exact awaited set for tables without early-return rounds (with the pre-repair over-report witness); tables, routing and constants regenerated from the running code are proved equal to the model's by decide; tie = engine traces with flag-flipped copies injected before/instead/after, routing and wire round-trip assertions on every emitted message",
-         "secrecy of message contents is not modelled (only routing discipline); protobuf codec not modelled"),
+         "secrecy of message contents is not modelled in Lean: it is checked on every emitted message of every run by comparing every numeric field with the sender's long-term secrets (as integers and modulo the group order) and by requiring every proof response to be as long as its mask; protobuf codec not modelled"),
  "C09": ("Lean theorems: critical sections serialise (any interleaving of k callers' deliveries equals the sequential delivery of the concatenation), queries are transparent and exact, end emitted once; runtime part: whole protocol runs with every Start/Update/WaitingFor call in its own goroutine under the Go race detector, plus gated runs releasing pre-Start deliveries at the same instant as Start(); source-derived part (Props/C09b): lock-discipline facts regenerated from tss/party.go and the six local_party.go on every run (nothing touches the party before the lock, no TryLock, every exit releases it, the wrappers only delegate) are proved to have the shape the serialisation theorems assume",
          "the Go memory model and scheduler are runtime: the race detector observes only the executed interleavings (partial); the lock-discipline facts are syntactic (a go/ast pass over the named functions), not a proof about the Go code"),
  "C10": ("Lean completeness theorems for the proof systems under explicit good-coin predicates; tie = cross-verification: Go-made proofs judged by the Lean verifiers and Lean-made proofs judged by the Go verifiers, plus wire round-trips",
